@@ -1,4 +1,4 @@
-\* J3 (ii) conformance: every recorded line is a step of the model (any interleaving, any number of failures)
+\* the snapshot as found (3b65494): used while developing to show the as-found model explains every recorded line of the unfixed code
 SPECIFICATION SpecC
 CONSTANTS
   Impl = "asfound"
